@@ -9,6 +9,8 @@ use crate::Emit;
 pub enum T {
     Id(&'static str),
     Int(i64),
+    /// a double literal: source spelling (with its sign, if any)
+    Dbl(&'static str),
     /// a string literal: (source spelling, value)
     Str(&'static str, &'static str),
     /// a bytes literal: (source spelling, value)
@@ -41,6 +43,7 @@ fn prec(t: &T) -> u32 {
         },
         T::Not(_) | T::Neg(_) => 7,
         T::Int(i) if *i < 0 => 7, // a signed literal behaves like a prefix form after '-'
+        T::Dbl(t) if t.starts_with('-') => 7,
         T::Sel(..) | T::Idx(..) | T::MCall(..) => 8,
         _ => 9,
     }
@@ -62,6 +65,7 @@ pub fn expected(t: &T) -> String {
             o
         }
         T::Int(i) => format!("(lit (int {}))", i),
+        T::Dbl(t) => format!("(lit {})", sx_f64(t.parse::<f64>().unwrap())),
         T::Str(_, v) => format!("(lit {})", sx_str(v)),
         T::Bytes(_, v) => format!("(lit (bytes{}))", v.iter().map(|b| format!(" {}", b)).collect::<String>()),
         T::Cond(c, a, b) => format!("(call {} none {} {} {})", sx_str("_?_:_"), expected(c), expected(a), expected(b)),
@@ -118,6 +122,7 @@ pub fn print_full(t: &T) -> String {
     match t {
         T::Id(n) => n.to_string(),
         T::Int(i) => format!("{}", i),
+        T::Dbl(t) => t.to_string(),
         T::Str(src, _) | T::Bytes(src, _) => src.to_string(),
         T::Cond(c, a, b) => format!("{} ? {} : {}", p(c), p(a), p(b)),
         T::Bin(op, a, b) => format!("{} {} {}", p(a), op, p(b)),
@@ -144,6 +149,7 @@ pub fn print_min(t: &T) -> String {
     match t {
         T::Id(n) => n.to_string(),
         T::Int(i) => format!("{}", i),
+        T::Dbl(t) => t.to_string(),
         T::Str(src, _) | T::Bytes(src, _) => src.to_string(),
         // condition and then-branch are conditionalOr; the else-branch is a full expr
         T::Cond(c, a, b) => format!("{} ? {} : {}", at(c, 2), at(a, 2), at(b, 1)),
@@ -157,7 +163,7 @@ pub fn print_min(t: &T) -> String {
             }
         }
         // a prefix-operator (or signed literal) child of a prefix operator is parenthesised
-        T::Not(a) => format!("!{}", if matches!(**a, T::Int(i) if i < 0) { print_min(a) } else { at(a, 8) }),
+        T::Not(a) => format!("!{}", if matches!(**a, T::Int(i) if i < 0) || matches!(**a, T::Dbl(t) if t.starts_with('-')) { print_min(a) } else { at(a, 8) }),
         // '-' directly before a number belongs to the literal, so such an operand is parenthesised
         T::Neg(a) => {
             if starts_with_number(a) {
@@ -178,6 +184,7 @@ pub fn print_min(t: &T) -> String {
 fn starts_with_number(t: &T) -> bool {
     match t {
         T::Int(i) => *i >= 0,
+        T::Dbl(t) => !t.starts_with('-'),
         T::Sel(a, _) | T::Idx(a, _) | T::MCall(a, _, _) => prec(a) >= 8 && starts_with_number(a),
         _ => false,
     }
@@ -252,7 +259,7 @@ fn random_tree(rng: &mut Rng, depth: u32) -> T {
                 1 => rng.pick(&[T::Bytes("b'ab'", b"ab"), T::Bytes("B\"\\xff\\377é\"", &[255, 255, 0xc3, 0xa9]), T::Bytes("b''", b"")]).clone(),
                 _ => T::Int(rng.range(0, 9)),
             },
-            3 => T::Int(-rng.range(1, 9)),
+            3 => if rng.chance(1, 2) { T::Int(-rng.range(1, 9)) } else { T::Dbl(*rng.pick(&["1.5", "-1.5", "0.0", "2e3", "-2.5e-3", ".5", "1e10", "-0.0", "3.14159"])) },
             _ => T::Id("x"),
         };
     }
@@ -291,7 +298,7 @@ fn random_tree(rng: &mut Rng, depth: u32) -> T {
 
 fn ops(t: &T) -> u32 {
     match t {
-        T::Id(_) | T::Int(_) | T::Str(..) | T::Bytes(..) => 0,
+        T::Id(_) | T::Int(_) | T::Dbl(_) | T::Str(..) | T::Bytes(..) => 0,
         T::Cond(a, b, c) => 1 + ops(a) + ops(b) + ops(c),
         T::Bin(_, a, b) | T::Idx(a, b) => 1 + ops(a) + ops(b),
         T::Not(a) | T::Neg(a) | T::Sel(a, _) => 1 + ops(a),
@@ -314,8 +321,10 @@ fn st_wire(t: &T, full: bool) -> Option<String> {
         T::Cond(c, a, b) => format!("(cond {} {} {})", sub(c)?, sub(a)?, sub(b)?),
         T::Int(i) if *i >= 0 => format!("(lint {})", i),
         T::Int(i) => format!("(lneg {})", i),
+        T::Dbl(t) if t.starts_with('-') => format!("(lnegdbl {})", sx_str(&t[1..])),
+        T::Dbl(t) => format!("(ldbl {})", sx_str(t)),
         // print_min writes "!-1" without parentheses: not the minimal rendering of a surface tree
-        T::Not(a) if !full && matches!(**a, T::Int(i) if i < 0) => return None,
+        T::Not(a) if !full && (matches!(**a, T::Int(i) if i < 0) || matches!(**a, T::Dbl(t) if t.starts_with('-'))) => return None,
         T::Str(src, v) => format!("(lstr {} {})", sx_str(src), sx_str(v)),
         T::Bytes(src, v) => format!("(lbytes {} (str{}))", sx_str(src), v.iter().map(|b| format!(" {}", b)).collect::<String>()),
         T::Not(a) => format!("(not 0 {})", sub(a)?),
